@@ -52,7 +52,7 @@ def _kit():
     return SimLoop, Message, resource, remote, serve, stack
 
 
-def mk_block1(szx, nsteps, pa_fixed=None):
+def mk_block1(szx, nsteps, pa_fixed=None, two=None):
     """inductive step: pre-state = per (endpoint, key) an assembly of 0 / 1 / 2 blocks or none, built through the real API;
     then `nsteps` block requests with symbolic (selector, NUM, M / length class); model and real spool compared after each"""
     def make(reach):
@@ -82,6 +82,9 @@ def mk_block1(szx, nsteps, pa_fixed=None):
         def h(pa: int, pb: int, pc: int, s1: int, n1: int, k1: int, s2: int, n2: int, k2: int) -> None:
             assert 0 <= pa < 3 and (pa_fixed is None or pa == pa_fixed) and 0 <= pb < 3 and 0 <= pc < 3 and 0 <= s1 < 3 and 0 <= n1 < 4 and 0 <= k1 < len(MLEN)
             assert 0 <= s2 < 3 and 0 <= n2 < 4 and 0 <= k2 < len(MLEN)
+            # two-step form: from the empty spool, first request for a fixed selector with NUM 0 or 1 (higher numbers are
+            # rejected from an empty spool like 1)
+            assert two is None or (pa == 0 and pb == 0 and pc == 0 and s1 == two and n1 < 2)
             with SimLoop() as loop:
                 res = Rec()
                 model = {}
@@ -307,8 +310,11 @@ def obligations(tier):
                                   concrete={"size exponent": szx, "first assembly in the pre-state": ["none", "1 block", "2 blocks"][pa]},
                                   stubs=["SimLoop", "pipe-level driver (render_to_pipe + error_to_message)"]))
         if not q:
-            obs.append(Obligation("block1-twosteps-szx%d" % szx, mk_block1(szx, 2), 3000, functions=FUNCS,
-                                  symbolic={"pre-state": "27 combinations", "two requests": "84 combinations each"}, concrete={"size exponent": szx}))
+            for sel in (0, 1, 2):
+                obs.append(Obligation("block1-twosteps-szx%d-sel%d" % (szx, sel), mk_block1(szx, 2, two=sel), 1500, functions=FUNCS,
+                                      symbolic={"first request": "NUM 0..1 x 9 (M, length) classes", "second request": "selector/3 x NUM 0..3 x 9 classes"},
+                                      concrete={"size exponent": szx, "pre-state": "empty spool", "selector of the first request": sel},
+                                      note="cross-check of the inductive step on explicit two-request sequences (the full 27 x 84 x 84 product did not finish in 3000 s)"))
         for bi in (range(8) if not q else ([4, 5, 7] if szx == 0 else [5, 6])):   # 5: body ends exactly on a block boundary
             obs.append(Obligation("block2-szx%d-len%d" % (szx, bi), mk_block2(szx, bi), 280 if q else 1500, functions=FUNCS,
                                   symbolic={"3 requests": "endpoint index x NUM 0..4", "first request without Block2": "bool"},
